@@ -280,7 +280,31 @@ def r13_5(ctx, rep):
 
 
 # -- seeded variants ---------------------------------------------------------
+@SPEC.rule(
+    "R13.6",
+    "attribute values are not recycled by their printed text: model.py holds no dict/set keyed by str(value) — two start values "
+    "that print alike (1.0000001 and 1.0000002 both print as 1) would share the first one's node and the metadata row would "
+    "carry a value the source never stated",
+)
+def r13_6(ctx, rep):
+    from ._memo import no_text_keyed_tables
+    no_text_keyed_tables(ctx, rep, "R13.6", MODEL, "the CasADi model (metadata functions included)", 20)
+
+
 from ._mut import replace_in_func  # noqa: E402
+
+
+@SPEC.mutant("constant metadata nodes recycled by printed text", MODEL, "R13.6", "keyed by the printed form")
+def _m_textrecycle(mod):
+    def edit(fn):
+        fn.body.insert(0, ast.parse("_consts = {}").body[0])
+        for n in ast.walk(fn):
+            if isinstance(n, ast.Assign) and norm(n.value) == "ca.MX(value)":
+                n.value = ast.parse("_consts.setdefault(repr(value), ca.MX(value))", mode="eval").body
+                return True
+        return False
+
+    return mod if replace_in_func(mod, "Model.variable_metadata_function", edit) or replace_in_func(mod, "Model.simplify", edit) else None
 
 
 @SPEC.mutant("default nominal = 1", MODEL, "R13.1", "nominal")
